@@ -258,6 +258,12 @@ def configs(tier):
         for a, b in ([('A', 'C')] if tier == 'quick' else [('A', 'C'), ('C', 'A')]):
             for buf in (False, True):
                 add(3, grid, chain1, a, b, buf, 3)
+    # ---- four layouts in a chain: the only route from A to D has three steps (the loop over the remaining steps runs twice)
+    chain4 = {'A': [0, 1, 2], 'B': [2, 1, 0], 'C': [2, 0, 1], 'D': [1, 0, 2]}
+    for grid in grids:
+        for a, b in ([('A', 'D')] if tier == 'quick' else [('A', 'D'), ('D', 'A')]):
+            for buf in (False, True):
+                add(3, grid, chain4, a, b, buf, 3)
     return out
 
 
